@@ -163,13 +163,21 @@ class Resolver:
 
 
 def handler_action(h: ast.ExceptHandler, rs: Resolver) -> str:
-    last = h.body[-1]
-    if isinstance(last, ast.Raise):
-        if last.exc is None or (isinstance(last.exc, ast.Name) and last.exc.id == h.name):
-            return ".reraise"
-        target = last.exc.func if isinstance(last.exc, ast.Call) else last.exc
-        return f".raises .{rs.resolve(target)}"
-    return ".recover"
+    """What the handler does with the exception: the class it raises (any `raise X(...)` in its body, whatever the
+    statement order), a re-raise, or recovery."""
+    raised, reraise = set(), False
+    for n in ast.walk(ast.Module(body=h.body, type_ignores=[])):
+        if isinstance(n, ast.Raise):
+            if n.exc is None or (isinstance(n.exc, ast.Name) and n.exc.id == h.name):
+                reraise = True
+            else:
+                target = n.exc.func if isinstance(n.exc, ast.Call) else n.exc
+                raised.add(rs.resolve(target))
+    if len(raised) > 1 or (raised and reraise):
+        return ".recover"  # several outcomes: the hand model must give the continuation (fails closed otherwise)
+    if raised:
+        return f".raises .{raised.pop()}"
+    return ".reraise" if reraise else ".recover"
 
 
 def scan_file(repo: Path, rel: str, hier: Hierarchy):
